@@ -226,6 +226,21 @@ func ruleC06BranchExec(c *Ctx) {
 			if !own && !empty {
 				ok, why = false, "a success path yields "+rs+", which is not the result of executing the branch's own statement as a query"
 			}
+			if !own && empty {
+				// "no rows" is answered only for a branch that returned nothing at all (a nil result): a result of another
+				// shape -- the single row of a FROM-less branch is an object, not a list -- is a result
+				nothing := false
+				for k, v := range p.Asg {
+					if kt := p.KeyTerm[k]; kt != nil {
+						if x, isN := isNilTest(kt); isN && !isErrorType(x) && isTrueC(v) {
+							nothing = true
+						}
+					}
+				}
+				if !nothing {
+					ok, why = false, "a success path answers with an empty list although the branch's result was not nil (under "+p.String()+"): the row of a FROM-less branch, which is handed over as an object, is dropped from the union"
+				}
+			}
 		}
 		if n == 0 {
 			ok, why = false, "no success path"
@@ -775,4 +790,109 @@ func fmtRendering(x *Term) (format, args *Term, ok bool) {
 		return a[1], a[2], true
 	}
 	return nil, nil, false
+}
+
+func init() { register("C06", ruleC06UnionClausesLast); register("C05", ruleC06UnionClausesLast) }
+
+// ruleC06UnionClausesLast: the LIMIT / OFFSET / ORDER BY of a union apply to the combined result. A condition over two
+// functions: the function that runs a branch reads the clause definitions of the union's query only if the union builder
+// stores them after both branches have run (then it reads the "absent" defaults) -- and the other way round.
+func ruleC06UnionClausesLast(c *Ctx) {
+	c.Doc("c06.union-clauses-last", "the union's own LIMIT/OFFSET/ORDER BY apply to the combined result: either the functions that run a branch never read limitDefinition / offsetDefinition / orderByDefinition of the union's query, or the union builder calls the builders of those clauses only after every branch has been executed (a branch cut to the union's LIMIT loses rows that the de-duplication, the OFFSET or the ORDER BY of the union would have kept)")
+	f := c.theFunc("union builder", "*sqlparser.Union", "BuildUnion")
+	if f == nil {
+		c.Unknown("c06.union-clauses-last", "BuildUnion", "-", "anchor lost")
+		return
+	}
+	key := c.P.funcKey(f)
+	c.Fn(key)
+	// the calls of the union builder: clause builders (they store the definitions) and branch runners (everything else of
+	// the module that is handed the union's Left / Right statement)
+	type site struct {
+		call *ssa.Call
+		idx  int
+	}
+	var clause, branch []site
+	ep := paramNameOfType(f, "*sqlparser.Union")
+	tb := NewTB()
+	for _, b := range f.Blocks {
+		for i, in := range b.Instrs {
+			call, ok := in.(*ssa.Call)
+			if !ok || call.Common().StaticCallee() == nil || !c.P.InModule(call.Common().StaticCallee()) {
+				continue
+			}
+			cal := call.Common().StaticCallee()
+			stores := false
+			allInstrs(cal, func(_ *ssa.BasicBlock, cin ssa.Instruction) {
+				if st, isSt := cin.(*ssa.Store); isSt {
+					if fa, isFA := st.Addr.(*ssa.FieldAddr); isFA {
+						switch fieldName(fa.X.Type(), fa.Field) {
+						case "limitDefinition", "offsetDefinition", "orderByDefinition":
+							stores = true
+						}
+					}
+				}
+			})
+			handsBranch := false
+			for _, a := range call.Common().Args {
+				fr := fieldsRead(tb.Of(a), ep)
+				if fr["Left"] || fr["Right"] {
+					handsBranch = true
+				}
+			}
+			switch {
+			case handsBranch:
+				branch = append(branch, site{call, i})
+			case stores:
+				clause = append(clause, site{call, i})
+			}
+		}
+	}
+	if len(branch) == 0 || len(clause) == 0 {
+		c.Unknown("c06.union-clauses-last", key, c.P.Pos(f.Pos()), fmt.Sprintf("anchor lost: %d branch executions and %d clause builders found in the union builder", len(branch), len(clause)))
+		return
+	}
+	early := ""
+	for _, cs := range clause {
+		for _, bs := range branch {
+			cb, bb := cs.call.Block(), bs.call.Block()
+			if cb == bb && cs.idx < bs.idx || cb != bb && reaches(cb, bb) {
+				early = calleeName(cs.call.Common()) + " at " + c.P.Pos(cs.call.Pos()) + " runs before the branch execution at " + c.P.Pos(bs.call.Pos())
+			}
+		}
+	}
+	// what the branch runners read of the query they are given
+	reads := ""
+	seen := map[*ssa.Function]bool{}
+	for _, bs := range branch {
+		for _, g := range withClosures(bs.call.Common().StaticCallee()) {
+			if seen[g] {
+				continue
+			}
+			seen[g] = true
+			c.Fn(c.P.funcKey(g))
+			allInstrs(g, func(_ *ssa.BasicBlock, in ssa.Instruction) {
+				fa, ok := in.(*ssa.FieldAddr)
+				if !ok {
+					return
+				}
+				switch n := fieldName(fa.X.Type(), fa.Field); n {
+				case "limitDefinition", "offsetDefinition", "orderByDefinition":
+					// a read (not the store of a constructor)
+					if fa.Referrers() != nil {
+						for _, r := range *fa.Referrers() {
+							if u, isU := r.(*ssa.UnOp); isU && u.Op == token.MUL {
+								reads = c.P.funcKey(g) + " reads " + n + " at " + c.P.Pos(in.Pos())
+							}
+						}
+					}
+				}
+			})
+		}
+	}
+	why := ""
+	if early != "" && reads != "" {
+		why = early + ", and " + reads + ": every branch is cut (or ordered) by the union's own clause before the union combines, de-duplicates and windows the rows"
+	}
+	c.Check(why == "", "c06.union-clauses-last", key, c.P.Pos(f.Pos()), fmt.Sprintf("%d branch executions, %d clause builders: the branches do not see the union's LIMIT/OFFSET/ORDER BY", len(branch), len(clause)), why)
 }
